@@ -36,6 +36,7 @@ def kinds(timeout_ticks):
     t = timeout_ticks
     return [
         ["reply", max(0, t - 2), "aa01"],
+        ["reply", 1, ""],  # a zero-length datagram is a reply too
         ["none"],
         ["reply", t + 3, "bb02"],  # after the timeout
         ["two", 1, "cc03", 2, "dd04"],
@@ -166,6 +167,8 @@ def loopback(ctx, res):
                 b = behaviour[min(len(got) - 1, len(behaviour) - 1)]
                 if b == "reply":
                     self.transport.sendto(b"R" + data[:8], addr)
+                elif b == "empty":
+                    self.transport._sock.sendto(b"", addr)  # asyncio's sendto() drops empty payloads
                 elif b == "two":
                     self.transport.sendto(b"1" + data[:8], addr)
                     self.transport.sendto(b"2" + data[:8], addr)
@@ -190,13 +193,15 @@ def loopback(ctx, res):
             result = ["error", "timeout"]
         except OSError:
             result = ["error", "oserror"]
+        except Exception as exc:  # noqa: BLE001 - any other exception is an observation, not a harness failure
+            result = ["error", type(exc).__name__]
         await asyncio.sleep(0.2)  # late replies / ICMP arrive, loop runs
         after = fd_count()
         if server:
             server.close()
         return {"result": result, "sends": len(got), "same": all(g == PACKET for g in got), "fd_delta": after - before}
 
-    cases = [(["reply"], 3), (["none", "reply"], 3), (["none"], 2), (["late", "reply"], 3), (["two"], 2), (["closed"], 3), (["none", "none", "reply"], 3), (["late"], 1)]
+    cases = [(["empty", "reply"], 3), (["reply"], 3), (["none", "reply"], 3), (["none"], 2), (["late", "reply"], 3), (["two"], 2), (["closed"], 3), (["none", "none", "reply"], 3), (["late"], 1)]
     for behaviour, retries in cases * ctx.budget(1, 5):
         loop = asyncio.new_event_loop()
         try:
@@ -211,10 +216,10 @@ def loopback(ctx, res):
         if behaviour != ["closed"]:
             n_unans = 0
             for b in behaviour + [behaviour[-1]] * retries:
-                if b in ("reply", "two"):
+                if b in ("reply", "two", "empty"):
                     break
                 n_unans += 1
-            want = ["error", "timeout"] if n_unans >= retries else ["ok", "R" if (behaviour + [behaviour[-1]] * retries)[n_unans] == "reply" else "1"]
+            want = ["error", "timeout"] if n_unans >= retries else ["ok", {"reply": "R", "two": "1", "empty": ""}[(behaviour + [behaviour[-1]] * retries)[n_unans]]]
             if obs["result"] != want or not obs["same"] or obs["sends"] > retries:
                 res.violate("loopback", case, want, obs, "loopback run does not behave as the property demands", {"kind": "udp", "what": "wrong-behaviour", "after": "loopback"})
         elif obs["result"][0] == "ok":
@@ -239,7 +244,7 @@ def run(ctx):
             k = ctx.rng.choice(["reply", "none", "two", "oserror", "lost", "reply"])
             d = ctx.rng.choice([x for x in range(0, timeout_ticks * 2 + 3) if x != timeout_ticks])
             d2 = ctx.rng.choice([x for x in range(d, timeout_ticks * 2 + 4) if x != timeout_ticks])
-            outs.append({"reply": ["reply", d, "%02x%02x" % (d, len(outs))], "none": ["none"], "two": ["two", d, "e1", d2, "e2"], "oserror": ["oserror", d], "lost": ["lost", d, ctx.rng.random() < 0.7]}[k])
+            outs.append({"reply": ["reply", d, ctx.rng.choice(["%02x%02x" % (d, len(outs)), "", "00"])], "none": ["none"], "two": ["two", d, "e1", d2, "e2"], "oserror": ["oserror", d], "lost": ["lost", d, ctx.rng.random() < 0.7]}[k])
         check_case(res, timeout_ticks, retries, outs, reqs, impls)
     loopback(ctx, res)
     if ctx.driver_ok:
